@@ -1,0 +1,65 @@
+//go:build verif && vfs
+
+package litestream
+
+import (
+	"context"
+	"sort"
+
+	"github.com/superfly/ltx"
+)
+
+// Exported wrappers used only by the verification harness (build tags "verif vfs").
+
+// PollOnce runs exactly one poll of the replica (what monitorReplicaClient does per tick).
+func (f *VFSFile) PollOnce(ctx context.Context) error {
+	return f.pollReplicaClient(ctx)
+}
+
+// VFSIndexEntry is one binding of the page index, flattened.
+type VFSIndexEntry struct {
+	Pgno    uint32
+	Level   int
+	MinTXID ltx.TXID
+	MaxTXID ltx.TXID
+	Offset  int64
+	Size    int64
+}
+
+// VFSIndexState is a copy of the index-related state of a VFSFile.
+type VFSIndexState struct {
+	Index          []VFSIndexEntry
+	Pending        []VFSIndexEntry
+	PendingReplace bool
+	Commit         uint32
+	Pos            ltx.TXID
+	MaxTXID1       ltx.TXID
+	PageSize       uint32
+	LockType       int
+}
+
+func flattenVFSIndex(m map[uint32]ltx.PageIndexElem) []VFSIndexEntry {
+	out := make([]VFSIndexEntry, 0, len(m))
+	for k, v := range m {
+		out = append(out, VFSIndexEntry{Pgno: k, Level: v.Level, MinTXID: v.MinTXID, MaxTXID: v.MaxTXID, Offset: v.Offset, Size: v.Size})
+	}
+	sort.Slice(out, func(i, j int) bool { return out[i].Pgno < out[j].Pgno })
+	return out
+}
+
+// IndexSnapshot returns the main and pending index sorted by page number
+// together with the scalar fields the poll logic reads and writes.
+func (f *VFSFile) IndexSnapshot() VFSIndexState {
+	f.mu.Lock()
+	defer f.mu.Unlock()
+	return VFSIndexState{
+		Index:          flattenVFSIndex(f.index),
+		Pending:        flattenVFSIndex(f.pending),
+		PendingReplace: f.pendingReplace,
+		Commit:         f.commit,
+		Pos:            f.pos.TXID,
+		MaxTXID1:       f.maxTXID1,
+		PageSize:       f.pageSize,
+		LockType:       int(f.lockType),
+	}
+}
